@@ -84,15 +84,15 @@ func sortedCounts(m map[string]int) map[string]int { return m }
 
 func writeEvidence(prop, tier string, b budget, m *merged, violations int, wall float64) {
 	cov := map[string]any{
-		"evaluations":             m.evaluations,
-		"distinct_nontrivial":     len(m.nontrivial),
-		"rule":                    b.Rule,
-		"samples":                 m.samples,
-		"class_histogram":         m.labels,
-		"counters":                m.notes,
-		"excluded_known":          m.excl,
-		"invalid_worlds":          m.invalid,
-		"disagreements_checked":   m.disagreements,
+		"evaluations":                       m.evaluations,
+		"distinct_nontrivial":               len(m.nontrivial),
+		"rule":                              b.Rule,
+		"samples":                           m.samples,
+		"class_histogram":                   m.labels,
+		"counters":                          m.notes,
+		"excluded_known":                    m.excl,
+		"invalid_worlds":                    m.invalid,
+		"disagreements_checked":             m.disagreements,
 		"violations_confirmed_by_toolchain": m.confirmed,
 	}
 	if len(m.invalidSamp) > 0 {
